@@ -23,7 +23,8 @@ EXPLANATION = ("D1 predicates: a_ref (inside and habitable), volumes (inside), e
                "model's tilt classifiers induce the same partition of [0, 360], classifiers compare only the normalised angle, thresholds strictly increase")
 DECIDED = ["D1 scope predicates", "D2 terms and copies", "D3 reported ventilation rate = the one used for U-values", "D4 classifier agreement and modulo-360 dependence",
            "D5 accumulation loops end only on iterator exhaustion",
-           "D6 the floor of a space is found from either side (own floor, or ceiling of the space below that names it)"]
+           "D6 the floor of a space is found from either side (own floor, or ceiling of the space below that names it)",
+           "D7 the element that covers a space (net height) by truth table, nothing else consulted; Space::area and Space::height_net are not rounded"]
 UNDECIDED = ["exact scaling under rounding (homogeneity of the polygon-area closure is not normalised here)", "values on real models"]
 ASSUMPTIONS = ["normalize(x, 0, 360) maps into [0, 360) (formula checked)"]
 LEVEL_TEXT = ("Tables, terms and sibling cross-checks: every scope predicate is evaluated exhaustively over its atoms, the accumulation terms are normalised and compared with "
